@@ -209,6 +209,10 @@ pub fn small_universe() -> Vec<D> {
         D::node(SetExt, vec![a.clone(), b.clone()]), D::node(SetExt, vec![b.clone(), a.clone()]), D::node(SetExt, vec![a.clone()]),
         D::node(Conj, vec![a.clone(), b.clone()]), D::node(Product, vec![a.clone(), b.clone()]), D::node(Product, vec![b.clone(), a.clone()]),
         D::node(Inh, vec![a.clone(), b.clone()]), D::node(EquConc, vec![b.clone(), a.clone()]),
+        // same names, different inner atom kind / connective (hash ties must not decide equality)
+        D::node(Product, vec![a.clone()]), D::node(Product, vec![D::atom(IVar, "a")]), D::node(Seq, vec![a.clone()]),
+        D::node(Neg, vec![a.clone()]), D::node(Neg, vec![D::atom(DVar, "a")]),
+        D::node(Inh, vec![a.clone(), D::atom(QVar, "b")]), D::node(Imp, vec![a.clone(), b.clone()]),
     ];
     let mut u = u1;
     for k in [Sim, Equ, EquConc, Inh, SetExt, Conj, Par, Product, DiffExt] {
